@@ -40,6 +40,17 @@ def _assign(tis, how):
             t.obj.add_required_resource(sw)
             named[f"sel{i}_W"] = sw._selection_dict[w]
         return w, [(t, w._busy_intervals[t.obj]) for t in tis], named
+    if how in ("delayed", "dynamic"):
+        # the first task holds the worker for a part of its span only
+        w = ps.Worker(name="W")
+        for i, t in enumerate(tis):
+            if i == 0 and how == "delayed":
+                t.obj.add_required_resource(w, delay_in=1, early_out=1)
+            elif i == 0:
+                t.obj.add_required_resource(w, dynamic=True)
+            else:
+                t.obj.add_required_resource(w)
+        return w, [(t, w._busy_intervals[t.obj]) for t in tis], {}
     if how == "cumulative":
         cw = ps.CumulativeWorker(name="CW", size=2)
         for t in tis:
@@ -77,8 +88,8 @@ def _mask_tag(m):
 def utilization_shapes(tier):
     out = []
     hz_grid = [1, 2, 3, 7, 10, 33, 60] if tier == "quick" else [1, 2, 3, 4, 6, 7, 9, 10, 13, 25, 33, 50, 60, 99, 100, 101, 150, 200, 250]
-    for how in ("worker", "select"):
-        for hz in hz_grid + [None]:
+    for how in ("worker", "select", "delayed", "dynamic"):
+        for hz in (hz_grid + [None] if how in ("worker", "select") else [7, 10, None]):
             kinds = ("fixed", "var")
             name = f"utilization/{how}/hz_{hz}"
 
@@ -96,7 +107,7 @@ def utilization_shapes(tier):
                 return [("percentage_within_rounding", D > 0, And(v * D - N < D, N - v * D < D)),
                         ("between_0_and_100", D > 0, And(v >= 0, v <= 100))]
 
-            out.append(shape(name, build, defs))
+            out.append(shape(name, build, defs, assumptions=(lambda P: [P.v("A_dur") >= 2]) if how == "delayed" else None))
     return out
 
 
@@ -236,7 +247,7 @@ def idle_shapes(tier):
 def cost_shapes(tier):
     out = []
     # constant cost per period: symbolic value (forks on == 0 / == 1)
-    for how in ("worker", "select"):
+    for how in ("worker", "select", "delayed", "dynamic"):
         def build(P, how=how):
             pb, hv = new_problem(P, False)
             tis = _tasks(P, ("fixed", "var"), (False, True))
@@ -245,6 +256,9 @@ def cost_shapes(tier):
             if how == "worker":
                 for t in tis:
                     t.obj.add_required_resource(w)
+            elif how in ("delayed", "dynamic"):
+                tis[0].obj.add_required_resource(w, **({"delay_in": 1, "early_out": 1} if how == "delayed" else {"dynamic": True}))
+                tis[1].obj.add_required_resource(w)
             else:
                 for t in tis:
                     t.obj.add_required_resource(ps.SelectWorkers(list_of_workers=[w, w2], nb_workers_to_select=1))
@@ -257,7 +271,7 @@ def cost_shapes(tier):
                       [3 * (be - bs) for bs, be in ctx.w2._busy_intervals.values()])
             return [("constant_cost_times_busy_time", True, v == tot)]
 
-        out.append(shape(f"cost_constant/{how}", build, defs))
+        out.append(shape(f"cost_constant/{how}", build, defs, assumptions=(lambda P: [P.v("A_dur") >= 2]) if how == "delayed" else None))
     # a worker that pays back (negative constant cost): the total may be negative
     def build_neg(P):
         pb, hv = new_problem(P, False)
